@@ -2,6 +2,11 @@ import TR.Lemmas.Cache
 import TR.Lemmas.CacheFifo
 import TR.Lemmas.CacheTtl
 import TR.Lemmas.CacheLayer
+import TR.Lemmas.CacheLog
+import TR.Lemmas.CacheRecency
+import TR.Lemmas.CacheResult
+import TR.Lemmas.CacheSince
+import TR.Lemmas.CacheWhen
 /-!
 # C10 — cache hits return the latest unexpired value of the right key; size is bounded; the victim follows the policy
 
@@ -18,6 +23,13 @@ Vocabulary: `s.store` is the container; `lookup s.stored k` is the **specificati
 `key ↦ (value, storedAt)` of the latest successful completion for `k` (`s.stored` lists every
 successful completion, newest first — theorem `stored_only_by_ok_completion`); `s.callKey` maps the
 serial of an inner call (= the value of its response) to the key of the request it was made for.
+
+`stored`, `callKey` and the entries' `used` are ghosts: the correspondence check compares the **event log**
+(`s.log`: `req c key=k svc=i` — `reqEv c k i` —, `inner_call c v`, `inner_done c v ok|…`, `result c …`), not
+them. The section "read off the event log" proves that the ghosts are functions of the log and restates the
+clauses over the log alone: `ReqKey log c k` — the log shows a request of caller `c` with key `k`;
+`LastOkFor log k v` — the last `inner_done _ _ ok` of a caller whose request has key `k` carries `v`;
+`IsAccess` / `AccessedAfter` — recency of a key in the log (LRU).
 -/
 namespace TR.Props.C10
 open TR TR.Cache
@@ -388,6 +400,313 @@ theorem hit_is_latest_per_store (cfg : Cfg) (n i : Nat) (ops : List Op) (k v : N
       ∀ d, cfg.ttl = some d → (runAt cfg n i ops).now - t ≤ d :=
   hit_is_latest cfg (proj n i ops) k v h
 
+/-! ## the read path as the code writes it; a present key hits
+
+`CacheStore::get` (`store.rs:51-61`) first runs the container's own `get` — LRU promotes, LFU counts — and only
+then tests the entry; an expired one is removed from the already touched container. `storeGet` is written in
+exactly these two phases (the first theorem is its definition, `rfl`); the proofs use the one-phase form
+`storeGetC` (expired ⇒ plain `rm`), and the second and third theorem are the justification. -/
+
+/-- `storeGet` **is** the two-phase read of the code: container `get` (`touch`), then the expiry test and
+the removal from the touched container. -/
+theorem read_is_two_phase (cfg : Cfg) (now tick : Nat) (items : List Entry) (k : Nat) :
+    storeGet cfg now tick items k =
+      match find items k with
+      | none => (items, none)
+      | some e => if expired cfg.ttl now e then (rm k (touch cfg.policy tick e items), none)
+                  else (touch cfg.policy tick e items, some e.val) := by
+  unfold storeGet
+  cases find items k <;> rfl
+
+/-- **promote-then-remove = remove**, for each of the three containers. -/
+theorem promote_then_remove_is_remove (p : Policy) (tick : Nat) (e : Entry) (items : List Entry) :
+    rm e.key (touch p tick e items) = rm e.key items :=
+  rm_touch p tick e items
+
+/-- … hence the two-phase read is the one-phase read (`storeGetC`: an expired entry is simply removed). -/
+theorem two_phase_read_is_one_phase (cfg : Cfg) (now tick : Nat) (items : List Entry) (k : Nat) :
+    storeGet cfg now tick items k = storeGetC cfg now tick items k :=
+  storeGet_eq cfg now tick items k
+
+/-- **A present, unexpired key hits** — for every TTL configuration (`none` included): if the store holds
+an entry for `k` that has not expired, the lookup returns that entry's value, which is the value of the
+latest successful completion for `k`. -/
+theorem present_unexpired_key_hits (cfg : Cfg) (ops : List Op) (k : Nat) (e : Entry)
+    (hf : find (run cfg ops).store k = some e) (hx : expired cfg.ttl (run cfg ops).now e = false) :
+    (storeGet cfg (run cfg ops).now (run cfg ops).tick (run cfg ops).store k).2 = some e.val ∧
+    lookup (run cfg ops).stored k = some (e.val, e.ins) := by
+  have hfr := (inv_reachable cfg ops).1.fresh e (find_some hf).1
+  rw [(find_some hf).2] at hfr
+  exact ⟨storeGet_fresh hf hx, hfr⟩
+
+/-- **Without a TTL a present key always hits** (the clause the monitor `c10-no-needless-miss` checks,
+for `ttl = none`): whatever the clock says. -/
+theorem present_key_hits_without_ttl (cfg : Cfg) (ops : List Op) (httl : cfg.ttl = none) (k : Nat) (e : Entry)
+    (hf : find (run cfg ops).store k = some e) :
+    (storeGet cfg (run cfg ops).now (run cfg ops).tick (run cfg ops).store k).2 = some e.val ∧
+    lookup (run cfg ops).stored k = some (e.val, e.ins) :=
+  present_unexpired_key_hits cfg ops k e hf (by rw [httl]; rfl)
+
+/-- An absent key misses and the lookup leaves the store as it is (in every state). -/
+theorem absent_key_misses (cfg : Cfg) (now tick : Nat) (items : List Entry) (k : Nat) (hf : find items k = none) :
+    storeGet cfg now tick items k = (items, none) := by
+  rw [storeGet_eq]; simp [storeGetC, hf]
+
+/-! ## the same clauses, read off the event log
+
+Everything below speaks about `(run cfg ops).log` only — the lines the correspondence check compares with
+the implementation — for every configuration and every history. -/
+
+/-- The echo line `req c key=k svc=i` determines the caller, the key and the service. -/
+theorem echo_determines_request {c k i c' k' i' : Nat} (h : reqEv c k i = reqEv c' k' i') :
+    c = c' ∧ k = k' ∧ i = i' :=
+  reqEv_inj h
+
+/-- **Bookkeeping of the log.** A caller has at most one request (one key); an inner call stands directly
+behind the echo of its caller's request; a serial is used by one call, a caller makes at most one call;
+an `inner_done c v _` is the completion of the call `inner_call c v`. -/
+theorem log_bookkeeping (cfg : Cfg) (ops : List Op) :
+    (∀ c k k', ReqKey (run cfg ops).log c k → ReqKey (run cfg ops).log c k' → k = k') ∧
+    (∀ c v, Ev.innerCall c v ∈ (run cfg ops).log →
+      ∃ pre post k svc, (run cfg ops).log = pre ++ reqEv c k svc :: Ev.innerCall c v :: post) ∧
+    (∀ c c' v, Ev.innerCall c v ∈ (run cfg ops).log → Ev.innerCall c' v ∈ (run cfg ops).log → c = c') ∧
+    (∀ c v v', Ev.innerCall c v ∈ (run cfg ops).log → Ev.innerCall c v' ∈ (run cfg ops).log → v = v') ∧
+    (∀ c v o, Ev.innerDone c v o ∈ (run cfg ops).log → Ev.innerCall c v ∈ (run cfg ops).log) := by
+  have h := (log_inv_reachable cfg ops).1
+  refine ⟨h.reqFun, ?_, h.callFun, h.callOne, h.doneCall⟩
+  intro c v hc
+  obtain ⟨pre, post, k, svc, hl, _⟩ := h.callAdj c v hc
+  exact ⟨pre, post, k, svc, hl⟩
+
+/-- **`callKey` is a function of the log**: it maps `v` to `k` exactly when the log shows an inner call
+with serial `v` made by a caller whose request has key `k`. -/
+theorem call_key_is_request_key (cfg : Cfg) (ops : List Op) (v k : Nat) :
+    lookup (run cfg ops).callKey v = some k ↔
+      ∃ c, Ev.innerCall c v ∈ (run cfg ops).log ∧ ReqKey (run cfg ops).log c k :=
+  callKey_iff_log (log_inv_reachable cfg ops).1 v k
+
+/-- **The specification map is a function of the log**: `stored` maps `k` to the value `v` exactly when
+the *last* `inner_done c v' ok` in the log whose caller `c` requested key `k` has `v' = v`, and to nothing
+exactly when the log has no successful completion of a request for `k`. -/
+theorem spec_map_is_last_ok_completion (cfg : Cfg) (ops : List Op) (k : Nat) :
+    (∀ v, (∃ t, lookup (run cfg ops).stored k = some (v, t)) ↔ LastOkFor (run cfg ops).log k v) ∧
+    (lookup (run cfg ops).stored k = none ↔ NoOkFor (run cfg ops).log k) :=
+  ⟨fun v => stored_iff_log (log_inv_reachable cfg ops).2 k v, stored_none_iff_log (log_inv_reachable cfg ops).2 k⟩
+
+/-- **A hit returns the response most recently stored for its key — in log order — and never a response
+of another key.** Take any history and its log. Let `c` be a caller that was answered `ok:v` without an
+inner call of its own (a hit), and point at the echo of its request: `log = pre ++ req c key=k … :: post`.
+Then, in the part `pre` of the log that precedes the request:
+* there is a successful completion `inner_done c₀ v ok` of a caller `c₀` whose request (also in `pre`) has
+  key `k`, and **behind it** `pre` contains no successful completion of any request with key `k`
+  (`LastOkFor pre k v`, unfolded) — `v` is the response of the LAST inner call for `k` that completed `Ok`
+  (and was therefore stored) before the request;
+* `v` is the serial of an inner call made for a request with key `k`, and of no call made for a request
+  with another key. -/
+theorem hit_returns_last_stored_response_of_its_key (cfg : Cfg) (ops : List Op) (c v k svc : Nat)
+    (pre post : List Ev)
+    (hr : Ev.result c (.ok v) ∈ (run cfg ops).log)
+    (hn : ∀ v', Ev.innerCall c v' ∉ (run cfg ops).log)
+    (hd : (run cfg ops).log = pre ++ reqEv c k svc :: post) :
+    (∃ p q c₀, pre = p ++ Ev.innerDone c₀ v .ok :: q ∧ ReqKey pre c₀ k ∧
+      ∀ c' v', Ev.innerDone c' v' .ok ∈ q → ¬ ReqKey pre c' k) ∧
+    (∃ c₀, Ev.innerCall c₀ v ∈ (run cfg ops).log ∧ ReqKey (run cfg ops).log c₀ k) ∧
+    (∀ c' k', Ev.innerCall c' v ∈ (run cfg ops).log → ReqKey (run cfg ops).log c' k' → k' = k) := by
+  obtain ⟨hl, hs⟩ := log_inv_reachable cfg ops
+  have hlast := hit_result_log hl hs hr hn hd
+  obtain ⟨p, q, c₀, hp, hk, hno⟩ := hlast
+  have hdone : Ev.innerDone c₀ v .ok ∈ (run cfg ops).log := by rw [hd, hp]; simp
+  have hcall := hl.doneCall c₀ v .ok hdone
+  have hk' : ReqKey (run cfg ops).log c₀ k := by rw [hd]; exact hk.mono _
+  refine ⟨⟨p, q, c₀, hp, hk, hno⟩, ⟨c₀, hcall, hk'⟩, ?_⟩
+  intro c' k' hc' hr'
+  rw [hl.callFun c' c₀ v hc' hcall] at hr'
+  exact hl.reqFun c₀ k' k hr' hk'
+
+/-- Every caller answered `ok:v` without an inner call of its own *has* such an echo in the log (so the
+theorem above is about every hit). -/
+theorem hit_has_request_in_log (cfg : Cfg) (ops : List Op) (c v : Nat)
+    (hr : Ev.result c (.ok v) ∈ (run cfg ops).log) (hn : ∀ v', Ev.innerCall c v' ∉ (run cfg ops).log) :
+    ∃ pre post k svc, (run cfg ops).log = pre ++ reqEv c k svc :: post := by
+  obtain ⟨hl, hs⟩ := log_inv_reachable cfg ops
+  rcases hs.res c v hr with hdone | ⟨_, pre, post, k, svc, hd, _⟩
+  · exact absurd (hl.doneCall c v .ok hdone) (hn v)
+  · exact ⟨pre, post, k, svc, hd⟩
+
+/-- **A miss returns the response of its own inner call**: a caller that made an inner call and was
+answered `ok:v` made the call with serial `v`, and that call completed `Ok`. -/
+theorem miss_returns_own_response (cfg : Cfg) (ops : List Op) (c v v' : Nat)
+    (hr : Ev.result c (.ok v) ∈ (run cfg ops).log) (hc : Ev.innerCall c v' ∈ (run cfg ops).log) :
+    v' = v ∧ Ev.innerDone c v .ok ∈ (run cfg ops).log := by
+  obtain ⟨hl, hs⟩ := log_inv_reachable cfg ops
+  rcases hs.res c v hr with hdone | ⟨hno, _⟩
+  · exact ⟨hl.callOne c v' v hc (hl.doneCall c v .ok hdone), hdone⟩
+  · exact absurd hc (hno v')
+
+/-- **LRU order = recency in the log.** Under LRU, after any history: every resident key has been accessed
+(`IsAccess`: the echo of a request served from the cache, or the successful completion of a request for the
+key), and the container lists the resident keys most recently accessed first: if `a` stands before `b`,
+then behind the last access of `b.key` in the log there is an access of `a.key`. -/
+theorem lru_order_is_log_recency (cfg : Cfg) (hp : cfg.policy = .lru) (ops : List Op) :
+    (∀ e ∈ (run cfg ops).store, Accessed (run cfg ops).log e.key) ∧
+    (run cfg ops).store.Pairwise (fun a b => AccessedAfter (run cfg ops).log b.key a.key) :=
+  ⟨(rinv_reachable cfg hp ops).acc, (rinv_reachable cfg hp ops).ord⟩
+
+/-- **LRU victim = the least recently used resident key, in log order.** Inserting a new key into a full
+store removes an entry `x` (and nothing else, `Evicts`) such that every other resident key has been accessed
+— hit or stored — *after* the last access of `x.key` in the log. -/
+theorem victim_lru_log (cfg : Cfg) (ops : List Op) (hp : cfg.policy = .lru)
+    (now k v w : Nat) (hnew : find (run cfg ops).store k = none)
+    (hfull : (run cfg ops).store.length ≥ cfg.cap) :
+    ∃ x, (storeInsert cfg now (run cfg ops).tick (run cfg ops).store k v w).victim = some x ∧
+      Evicts (run cfg ops).store (storeInsert cfg now (run cfg ops).tick (run cfg ops).store k v w).items
+        { key := k, val := v, ins := now, cnt := 1, used := (run cfg ops).tick, born := (run cfg ops).tick } x ∧
+      ∀ y ∈ (run cfg ops).store, y.key ≠ x.key → AccessedAfter (run cfg ops).log x.key y.key := by
+  obtain ⟨x, hv, hev, _⟩ := victim_lru cfg ops hp now k v w hnew hfull
+  refine ⟨x, hv, hev, ?_⟩
+  rw [storeInsert_lru hp] at hv
+  obtain ⟨ys, x', hys, hv'⟩ := insertLru_victim_last
+    (e := ⟨k, v, now, 1, (run cfg ops).tick, (run cfg ops).tick⟩) (cap_pos cfg) hnew hfull
+  rw [hv] at hv'
+  cases hv'
+  have hord := (rinv_reachable cfg hp ops).ord
+  rw [hys, List.pairwise_append] at hord
+  intro y hy hne
+  rw [hys, List.mem_append, List.mem_singleton] at hy
+  rcases hy with hy | rfl
+  · exact hord.2.2 y hy x (by simp)
+  · exact absurd rfl hne
+
+/-- **At most one result per caller**: the log holds at most one `result c …` line for every caller `c` —
+"the response" of a request is well defined. -/
+theorem one_result_per_caller (cfg : Cfg) (ops : List Op) (c : Nat) :
+    (run cfg ops).log.countP (isResOf c) ≤ 1 :=
+  (resinv_reachable cfg ops).resOnce c
+
+/-! ### LFU and FIFO: "since the entry was inserted"
+
+An eviction or a lazy expiry-removal writes no log line, so the moment a key became resident is a fact of the
+history, not of one log line. `ResidentSince cfg ops k n`: operation number `n` of `ops` inserted `k` — `k` is
+absent after the first `n` operations and present after every longer prefix of `ops`, all of `ops` included. -/
+
+/-- the operation that inserted a resident key is unique -/
+theorem insertion_is_unique (cfg : Cfg) (ops : List Op) (k n n' : Nat)
+    (h : ResidentSince cfg ops k n) (h' : ResidentSince cfg ops k n') : n = n' :=
+  h.unique h'
+
+/-- **LFU: the count of an entry is the number of accesses since its insertion.** Under LFU, after any
+history, for every resident entry `e`: some operation `n` inserted `e.key` (`ResidentSince`), and `e.cnt` is
+the number of accesses of `e.key` (`IsAccess`: echo of a request served from the cache, successful completion
+of a request for the key — the inserting completion included) among the log lines `q` written since then. -/
+theorem lfu_count_is_accesses_since_insertion (cfg : Cfg) (hp : cfg.policy = .lfu) (ops : List Op)
+    (e : Entry) (he : e ∈ (run cfg ops).store) :
+    ∃ n q, ResidentSince cfg ops e.key n ∧ (run cfg ops).log = (run cfg (ops.take n)).log ++ q ∧
+      CountAcc (run cfg ops).log e.key q e.cnt :=
+  lfu_count_since_insertion cfg hp ops e he
+
+/-- … and every single operation moves the counts by exactly the accesses among its own log lines
+(`LfuStep`): an entry that stays has its count raised by the number of accesses of its key among the new
+lines, an entry for a key that was absent starts with that number (one: the inserting completion). -/
+theorem lfu_count_step (cfg : Cfg) (hp : cfg.policy = .lfu) (ops : List Op) (op : Op) :
+    LfuStep (run cfg ops) (stepS cfg (run cfg ops) op) :=
+  step_lfuStep hp op (log_inv_reachable cfg ops).1
+
+/-- **LFU victim = a key with the fewest accesses since its insertion**: the removed entry has minimal
+count (`victim_lfu`), and every count in the store, the victim's included, is the number of accesses of
+the entry's key since the operation that inserted it. -/
+theorem victim_lfu_log (cfg : Cfg) (ops : List Op) (hp : cfg.policy = .lfu)
+    (now k v w : Nat) (hnew : find (run cfg ops).store k = none)
+    (hfull : (run cfg ops).store.length ≥ cfg.cap) :
+    ∃ x, (storeInsert cfg now (run cfg ops).tick (run cfg ops).store k v w).victim = some x ∧
+      x ∈ (run cfg ops).store ∧ (∀ y ∈ (run cfg ops).store, x.cnt ≤ y.cnt) ∧
+      ∀ y ∈ (run cfg ops).store, CountedSince cfg ops y := by
+  obtain ⟨x, hv, hev, hmin, _⟩ := victim_lfu cfg ops hp now k v w hnew hfull
+  exact ⟨x, hv, hev.1, hmin, lfu_count_since_insertion cfg hp ops⟩
+
+/-- **FIFO: the queue is in the order of the insertions.** Under FIFO, after any history, every resident key
+was inserted by some operation of the history, and if `a` stands before `b` in the queue then `a`'s key was
+inserted before `b`'s (`InsertedBefore`) — re-stores of a present key, hits, expiry-removals of other keys
+and evictions in between notwithstanding. -/
+theorem fifo_queue_is_insertion_order (cfg : Cfg) (hp : cfg.policy = .fifo) (ops : List Op) :
+    (∀ e ∈ (run cfg ops).store, ∃ n, ResidentSince cfg ops e.key n) ∧
+    ((run cfg ops).store.map (·.key)).Pairwise (InsertedBefore cfg ops) :=
+  ⟨(fifo_order_is_insertion_order cfg hp ops).res, (fifo_order_is_insertion_order cfg hp ops).ord⟩
+
+/-- **FIFO victim = the key that was inserted first** among the resident ones (and has been resident ever
+since): inserting a new key into a full store removes the front `x` of the queue, and every other resident
+key was inserted by a later operation of the history. -/
+theorem victim_fifo_first_inserted (cfg : Cfg) (ops : List Op) (hp : cfg.policy = .fifo)
+    (now k v w : Nat) (hnew : find (run cfg ops).store k = none)
+    (hfull : (run cfg ops).store.length ≥ cfg.cap) :
+    ∃ x, (storeInsert cfg now (run cfg ops).tick (run cfg ops).store k v w).victim = some x ∧
+      (run cfg ops).store.head? = some x ∧
+      ∀ y ∈ (run cfg ops).store, y.key ≠ x.key → InsertedBefore cfg ops x.key y.key := by
+  obtain ⟨hv, _, _⟩ := victim_fifo_oldest_stored cfg ops hp now k v w hnew hfull
+  have hord := (fifo_order_is_insertion_order cfg hp ops).ord
+  cases hst : (run cfg ops).store with
+  | nil => rw [hst] at hfull; have := cap_pos cfg; simp at hfull; omega
+  | cons x tl =>
+    rw [hst] at hv hord
+    refine ⟨x, hv, rfl, ?_⟩
+    intro y hy hne
+    simp only [List.map_cons, List.pairwise_cons] at hord
+    simp only [List.mem_cons] at hy
+    rcases hy with rfl | hy
+    · exact absurd rfl hne
+    · exact hord.1 y.key (List.mem_map.mpr ⟨y, hy, rfl⟩)
+
+/-! ### the TTL clause over the history
+
+The log carries no instants (an `adv` writes no line): the clock is a function of the history. -/
+
+/-- The clock after a history is the sum of its time advances. -/
+theorem clock_is_sum_of_advances (cfg : Cfg) (ops : List Op) : (run cfg ops).now = advSum ops :=
+  now_eq_advSum cfg ops
+
+/-- **Never older than the TTL — over the history.** If the lookup for `k` after the history `ops` hits with
+`v`, then some operation number `n` of `ops` is a poll `poll c w` that completed `c`'s inner call successfully
+— the log lines of that operation are `inner_done c v ok, …, result c ok:v` (`okEvs c v b`) and the echo of
+`c`'s request shows key `k` — and the time advances of the history since that operation sum to at most the
+TTL (when one is configured). -/
+theorem hit_not_older_than_ttl_in_history (cfg : Cfg) (ops : List Op) (k v : Nat)
+    (h : (storeGet cfg (run cfg ops).now (run cfg ops).tick (run cfg ops).store k).2 = some v) :
+    ∃ n c w b, n < ops.length ∧ ops[n]? = some (Op.poll c w) ∧
+      (run cfg (ops.take (n + 1))).log = (run cfg (ops.take n)).log ++ okEvs c v b ∧
+      ReqKey (run cfg (ops.take n)).log c k ∧
+      ∀ d, cfg.ttl = some d → advSum ops - advSum (ops.take n) ≤ d := by
+  obtain ⟨t, ht, _, httl⟩ := hit_is_latest cfg ops k v h
+  obtain ⟨n, c, w, b, hn, hop, hnow, hlog, hreq⟩ := stored_by_completion cfg ops _ (lookup_mem ht)
+  refine ⟨n, c, w, b, hn, hop, hlog, hreq, ?_⟩
+  intro d hd
+  have := httl d hd
+  rw [now_eq_advSum] at this hnow
+  simp only [] at hnow
+  rw [hnow]; exact this
+
+/-- The log-level statements hold for each store of a plain layer's services on its own (on the log of that
+store, with that store's serial numbers): a hit on a service returns the response most recently stored *in
+that service's store* for its key … -/
+theorem hit_returns_last_stored_response_per_store (cfg : Cfg) (n i : Nat) (ops : List Op) (c v k svc : Nat)
+    (pre post : List Ev)
+    (hr : Ev.result c (.ok v) ∈ (runAt cfg n i ops).log)
+    (hn : ∀ v', Ev.innerCall c v' ∉ (runAt cfg n i ops).log)
+    (hd : (runAt cfg n i ops).log = pre ++ reqEv c k svc :: post) :
+    (∃ p q c₀, pre = p ++ Ev.innerDone c₀ v .ok :: q ∧ ReqKey pre c₀ k ∧
+      ∀ c' v', Ev.innerDone c' v' .ok ∈ q → ¬ ReqKey pre c' k) ∧
+    (∃ c₀, Ev.innerCall c₀ v ∈ (runAt cfg n i ops).log ∧ ReqKey (runAt cfg n i ops).log c₀ k) ∧
+    (∀ c' k', Ev.innerCall c' v ∈ (runAt cfg n i ops).log → ReqKey (runAt cfg n i ops).log c' k' → k' = k) :=
+  hit_returns_last_stored_response_of_its_key cfg (proj n i ops) c v k svc pre post hr hn hd
+
+/-- … and each store's LRU victim is the least recently used key of *that store's* log (the log of a store
+holds exactly the requests made on its service, `proj`). -/
+theorem victim_lru_log_per_store (cfg : Cfg) (n i : Nat) (ops : List Op) (hp : cfg.policy = .lru)
+    (now k v w : Nat) (hnew : find (runAt cfg n i ops).store k = none)
+    (hfull : (runAt cfg n i ops).store.length ≥ cfg.cap) :
+    ∃ x, (storeInsert cfg now (runAt cfg n i ops).tick (runAt cfg n i ops).store k v w).victim = some x ∧
+      ∀ y ∈ (runAt cfg n i ops).store, y.key ≠ x.key → AccessedAfter (runAt cfg n i ops).log x.key y.key := by
+  obtain ⟨x, hv, _, h⟩ := victim_lru_log cfg (proj n i ops) hp now k v w hnew hfull
+  exact ⟨x, hv, h⟩
+
 /-- The builder's defaults (no `max_size` / `ttl` / `eviction_policy` call) are within the property's
 quantifier: `max_size = 100 ≥ 1`, no TTL, LRU. -/
 theorem builder_defaults_ok : 0 < builderDefaults.max ∧ builderDefaults.cap = 100 ∧
@@ -492,6 +811,103 @@ example :
     ((run cfg (ops ++ [.poll 3 2])).store.map (·.key)) = [1, 3] ∧
     Ev.raw "choice-not-allowed" ∈ (run cfg (ops ++ [.poll 3 7])).log ∧
     Ev.raw "choice-not-allowed" ∉ (run cfg (ops ++ [.poll 3 2])).log := by decide
+
+/-- Hypotheses of `hit_returns_last_stored_response_of_its_key` and of `miss_returns_own_response`, on a
+history with an overwrite: two concurrent misses on key 7 (callers 1 and 2, serials 0 and 1) and a request
+for key 8 in between; caller 2's slower call completes last, so it is the last successful completion for
+key 7 when caller 4 asks: caller 4 is answered `ok:1` without an inner call, and the part of the log before
+its echo ends `… inner_done 1 0 ok … inner_done 3 2 ok … inner_done 2 1 ok, result 2 ok:1`. -/
+example :
+    let cfg : Cfg := { max := 2, ttl := some 50, policy := .fifo }
+    let ops := [Op.arrive 1 7 0 ⟨0, .ok⟩, .arrive 2 7 0 ⟨5, .ok⟩, .poll 1 0, .arrive 3 8 0 ⟨0, .ok⟩, .poll 3 0,
+                .adv 5, .poll 2 0, .arrive 4 7 0 ⟨0, .ok⟩, .poll 4 0]
+    let pre := [reqEv 1 7 0, .innerCall 1 0, reqEv 2 7 0, .innerCall 2 1, .innerDone 1 0 .ok, .result 1 (.ok 0),
+                reqEv 3 8 0, .innerCall 3 2, .innerDone 3 2 .ok, .result 3 (.ok 2), .innerDone 2 1 .ok, .result 2 (.ok 1)]
+    (run cfg ops).log = pre ++ reqEv 4 7 0 :: [.result 4 (.ok 1)] ∧
+    Ev.result 4 (.ok 1) ∈ (run cfg ops).log ∧ (∀ v', Ev.innerCall 4 v' ∉ (run cfg ops).log) ∧
+    Ev.result 2 (.ok 1) ∈ (run cfg ops).log ∧ Ev.innerCall 2 1 ∈ (run cfg ops).log := by
+  refine ⟨by decide, by decide, no_call_of_countP (by decide), by decide, by decide⟩
+
+/-- Hypotheses of `present_unexpired_key_hits` / `present_key_hits_without_ttl` / `absent_key_misses`. -/
+example :
+    let cfg : Cfg := { max := 2, ttl := some 10, policy := .lfu }
+    let cfgN : Cfg := { max := 2, ttl := none, policy := .lru }
+    let ops := [Op.arrive 1 7 0 ⟨0, .ok⟩, .poll 1 0, .adv 10]
+    let e : Entry := { key := 7, val := 0, ins := 0, cnt := 1, used := 1, born := 1 }
+    find (run cfg ops).store 7 = some e ∧ expired cfg.ttl (run cfg ops).now e = false ∧
+    find (run cfgN (ops ++ [.adv 1000000])).store 7 = some e ∧ cfgN.ttl = none ∧
+    find (run cfg ops).store 8 = none := by decide
+
+/-- `lru_order_is_log_recency` / `victim_lru_log` on a concrete log: keys 1 and 2 stored, key 1 read again.
+The store is full (`max = 2`) and lists `1, 2`; a new key would evict 2. In the log the last access of key 2
+is `inner_done 2 1 ok`; behind it stands `req 3 key=1`, the echo of a request served from the cache — an
+access of key 1: `AccessedAfter log 2 1`. -/
+example :
+    let cfg : Cfg := { max := 2, ttl := none, policy := .lru }
+    let ops := [Op.arrive 1 1 0 ⟨0, .ok⟩, .poll 1 0, .arrive 2 2 0 ⟨0, .ok⟩, .poll 2 0, .arrive 3 1 0 ⟨0, .ok⟩, .poll 3 0]
+    (run cfg ops).store.map (·.key) = [1, 2] ∧ find (run cfg ops).store 3 = none ∧
+    (run cfg ops).store.length ≥ cfg.cap ∧ AccessedAfter (run cfg ops).log 2 1 := by
+  refine ⟨by decide, by decide, by decide, ?_⟩
+  refine ⟨[reqEv 1 1 0, .innerCall 1 0, .innerDone 1 0 .ok, .result 1 (.ok 0), reqEv 2 2 0, .innerCall 2 1],
+    .innerDone 2 1 .ok, [.result 2 (.ok 1), reqEv 3 1 0, .result 3 (.ok 0)], ⟨by decide, ?_, ?_⟩,
+    reqEv 3 1 0, by simp, ?_⟩
+  · exact Or.inr ⟨2, 1, rfl, 0, by decide⟩
+  · intro b hb
+    simp only [List.mem_cons, List.not_mem_nil, or_false] at hb
+    rcases hb with rfl | rfl | rfl
+    · exact not_isAccess_quiet_nodone (quiet_result _ _) (fun _ _ h => by cases h)
+    · intro h; exact absurd (isAccess_req h).1 (by decide)
+    · exact not_isAccess_quiet_nodone (quiet_result _ _) (fun _ _ h => by cases h)
+  · exact Or.inl ⟨3, 0, rfl, no_call_of_countP (by decide)⟩
+
+/-- `lfu_count_is_accesses_since_insertion` on a concrete history: key 7 is stored by operation 1 (`poll 1`)
+and read once; its count is 2, and the log lines written since operation 1 — `inner_done 1 0 ok`,
+`result 1 ok:0`, `req 2 key=7 …`, `result 2 ok:0` — contain exactly two accesses of key 7 (the storing
+completion and the echo of the request served from the cache). -/
+example :
+    let cfg : Cfg := { max := 2, ttl := none, policy := .lfu }
+    let ops := [Op.arrive 1 7 0 ⟨0, .ok⟩, .poll 1 0, .arrive 2 7 0 ⟨0, .ok⟩, .poll 2 0]
+    (run cfg ops).store.map (fun e => (e.key, e.cnt)) = [(7, 2)] ∧ ResidentSince cfg ops 7 1 ∧
+    (run cfg ops).log = (run cfg (ops.take 1)).log ++
+      [.innerDone 1 0 .ok, .result 1 (.ok 0), reqEv 2 7 0, .result 2 (.ok 0)] ∧
+    CountAcc (run cfg ops).log 7 [.innerDone 1 0 .ok, .result 1 (.ok 0), reqEv 2 7 0, .result 2 (.ok 0)] 2 := by
+  intro cfg ops
+  refine ⟨by decide, ⟨by decide, by decide, ?_⟩, by decide, ?_⟩
+  · intro m h1 h2
+    have hm : m = 2 ∨ m = 3 ∨ m = 4 := by simp [ops] at h2; omega
+    rcases hm with rfl | rfl | rfl <;> decide
+  · have hnr : ∀ c r, ¬ IsAccess (run cfg ops).log 7 (Ev.result c r) :=
+      fun c r => not_isAccess_quiet_nodone (quiet_result _ _) (fun _ _ h => by cases h)
+    exact .hit (Or.inr ⟨1, 0, rfl, 0, by decide⟩) (.skip (hnr _ _)
+      (.hit (Or.inl ⟨2, 0, rfl, no_call_of_countP (by decide)⟩) (.skip (hnr _ _) .nil)))
+
+/-- `victim_fifo_first_inserted` / `fifo_queue_is_insertion_order` on a concrete history: key 1 is inserted by
+operation 1, key 2 by operation 3 (the re-store of key 1 by the late completion of caller 2, operation 6, does
+not re-insert it): `InsertedBefore cfg ops 1 2`; the store is full and key 3 is absent. -/
+example :
+    let cfg : Cfg := { max := 2, ttl := none, policy := .fifo }
+    let ops := [Op.arrive 1 1 0 ⟨0, .ok⟩, .poll 1 0, .arrive 3 2 0 ⟨0, .ok⟩, .poll 3 0]
+    (run cfg ops).store.map (·.key) = [1, 2] ∧ find (run cfg ops).store 3 = none ∧
+    (run cfg ops).store.length ≥ cfg.cap ∧ InsertedBefore cfg ops 1 2 := by
+  intro cfg ops
+  refine ⟨by decide, by decide, by decide, 1, 3, ⟨by decide, by decide, ?_⟩, ⟨by decide, by decide, ?_⟩, by decide⟩
+  · intro m h1 h2
+    have hm : m = 2 ∨ m = 3 ∨ m = 4 := by simp [ops] at h2; omega
+    rcases hm with rfl | rfl | rfl <;> decide
+  · intro m h1 h2
+    have hm : m = 4 := by simp [ops] at h2; omega
+    subst hm; decide
+
+/-- Hypothesis of `hit_not_older_than_ttl_in_history`: key 7 stored at clock 3 by operation 2, a lookup at
+clock 3 + 10 = the TTL boundary still hits; the advances since operation 2 sum to 10. -/
+example :
+    let cfg : Cfg := { max := 2, ttl := some 10, policy := .lru }
+    let ops := [Op.adv 3, .arrive 1 7 0 ⟨0, .ok⟩, .poll 1 0, .adv 4, .adv 6]
+    (storeGet cfg (run cfg ops).now (run cfg ops).tick (run cfg ops).store 7).2 = some 0 ∧
+    ops[2]? = some (Op.poll 1 0) ∧ advSum ops - advSum (ops.take 2) = 10 ∧
+    (run cfg (ops.take 3)).log = (run cfg (ops.take 2)).log ++ okEvs 1 0 true := by
+  intro cfg ops
+  exact ⟨by decide, rfl, by decide, by decide⟩
 
 /-- TTL 0 (the history of seeded change C10-w5m1): key 1 stored at 0; a second request at the same instant
 is a hit; one tick later the entry is older than the TTL: the lookup misses, removes it and calls the inner
